@@ -206,6 +206,18 @@ def _h_transform(ctx, m, gi, nan_mode, output_dtype, dropna, probe, props):
                 out_again = d.transform(X)
                 for a, b in zip(list(out_again["f"]), col):
                     ctx.require(eqv(a, b), "C07.repeat-transform", "second transform differs")
+        # ---- read-only calls (summary, to_json) must not change what transform returns afterwards
+        if props & {"C04", "C07", "C16"} if isinstance(props, set) else set(props) & {"C04", "C07", "C16"}:
+            try:
+                d.summary()
+                if getattr(ctx, "concrete", False):
+                    d.to_json()
+            except Exception as e:
+                ctx.require(False, "C16.summary-internal-error", f"summary()/to_json() raised {type(e).__name__}: {str(e)[:120]}")
+            again = list(d.transform(X)["f"])
+            for a_, b_ in zip(again, col):
+                same_ = (isinstance(a_, float) and a_ != a_ and isinstance(b_, float) and b_ != b_) or bool(eqv(a_, b_))
+                ctx.require(same_, "C07.state-mutated-by-readonly-call", f"transform returns {again!r} after summary()/to_json(), {col!r} before")
         summ = None
         if "C16" in props:
             s = d.summary()
